@@ -39,9 +39,9 @@ func (s *ssRecvWrapper) RecvMsg(m interface{}) error {
 // SendMsg wrapps the underlying StreamServer SendMsg with the limiter.
 func (s *ssRecvWrapper) SendMsg(m interface{}) error {
 	ctx := s.Context()
-	token, ok := s.cfg.recvLimiter.Acquire(ctx)
+	token, ok := s.cfg.sendLimiter.Acquire(ctx)
 	if !ok {
-		_, errCode, err := s.cfg.sendLimitExceededResponseClassifier(ctx, s.info.FullMethod, m, s.cfg.recvLimiter)
+		_, errCode, err := s.cfg.sendLimitExceededResponseClassifier(ctx, s.info.FullMethod, m, s.cfg.sendLimiter)
 		return status.Error(errCode, err.Error())
 	}
 	err := s.ServerStream.SendMsg(m)
